@@ -6,6 +6,8 @@ import GT.Lemmas.Obj
 import GT.Lemmas.Units
 import GT.Model.Charts
 import GT.Model.Affine
+import GT.Model.ObjState
+import Mathlib.Tactic.FinCases
 import Mathlib.Data.Fin.Tuple.Basic
 
 set_option linter.unusedSectionVars false
@@ -504,5 +506,106 @@ theorem projCoordsND_units (a : ND K) {o : List ℕ} {n : ℕ} (ha : a.shape = o
       rw [← hget]; exact hnodup.idxOf_getElem k.1 hk
     rw [hio, if_pos hk]
     simp [GT.Affine.projCoords, rowAt]
+
+/-! ### `Segment._compute_aux_data` -/
+
+theorem get_minkND {n j c : ℕ} (hj : j < n) (hc : c < n) :
+    (minkND n : ND K).get [j, c] = (minkJ n : Matrix (Fin n) (Fin n) K) ⟨j, hj⟩ ⟨c, hc⟩ := by
+  unfold minkND
+  rw [get_ofFn _ _ (by simp [hj, hc])]
+  simp only [List.getD_cons_zero, List.getD_cons_succ, minkJ, Matrix.diagonal_apply, Fin.mk.injEq]
+
+/-- **lifting** of the vectorised `Segment._compute_aux_data`: the `[..., np.newaxis]` broadcasting pairs
+every unit with its own roots — unit `i` of the result is `segmentIdeal` of unit `i`, endpoint order
+included, for every composite rank -/
+theorem segmentAuxND_units (r : K → K) (e : ND K) {o : List ℕ} {n : ℕ} (he : e.shape = o ++ [2, n]) :
+    ∃ c, segmentAuxND r e = .ok c ∧ c.shape = o ++ [2, n] ∧
+      ∀ i, Valid o i → matAt c 2 n i = segmentIdeal (minkJ n) r (matAt e 2 n i) := by
+  have hlast : e.shape.getLastD 0 = n := by rw [he]; simp
+  have hrank : e.rank = o.length + 2 := by simp [ND.rank, he]
+  -- products = e @ J @ e.swapaxes(-1,-2)
+  have hJ : (minkND n : ND K).shape = [] ++ [n, n] := rfl
+  obtain ⟨m1, hm1, hm1s, hm1g⟩ := matmul_spec e (minkND n) he hJ (bcastShape_nil_right o)
+  have heT := shape_swapLast2 e he
+  obtain ⟨pr, hpr, hprs, hprg⟩ := matmul_spec m1 (e.swapaxes (e.rank - 1) (e.rank - 2)) hm1s heT (bcastShape_self o)
+  -- Gram entries
+  have hgram : ∀ i, Valid o i → ∀ (p q : ℕ) (hp : p < 2) (hq : q < 2), pr.get (i ++ [p, q]) =
+      bil (minkJ n) (matAt e 2 n i ⟨p, hp⟩) (matAt e 2 n i ⟨q, hq⟩) := by
+    intro i hi p q hp hq
+    rw [hprg i p q hi hp hq, sum_map_range, bil, Matrix.dotProduct_mulVec]
+    simp only [dotProduct, Matrix.vecMul, bcIx_self hi]
+    apply Finset.sum_congr rfl
+    intro cc _
+    rw [hm1g i p cc.1 hi hp cc.2, sum_map_range, get_swapLast2 e he hi cc.2 hq]
+    simp only [bcIx_self hi, bcIx_nil, List.nil_append, matAt]
+    congr 1
+    apply Finset.sum_congr rfl
+    intro j _
+    rw [get_minkND j.2 cc.2]
+  obtain ⟨h11s, h11g⟩ := entryLast2_spec pr hprs (i := 0) (j := 0) (by omega) (by omega)
+  obtain ⟨h22s, h22g⟩ := entryLast2_spec pr hprs (i := 1) (j := 1) (by omega) (by omega)
+  obtain ⟨h12s, h12g⟩ := entryLast2_spec pr hprs (i := 0) (j := 1) (by omega) (by omega)
+  obtain ⟨t, ht, hts, _, htg⟩ := zipBcast_same (fun x y => x - 2 * y) _ _ h11s h12s
+  obtain ⟨a, ha, has, _, hag⟩ := zipBcast_same (· + ·) t _ hts h22s
+  obtain ⟨b, hb, hbs, _, hbg⟩ := zipBcast_same (fun x y => 2 * x - 2 * y) _ _ h12s h22s
+  obtain ⟨ac, hac, hacs, _, hacg⟩ := zipBcast_same (fun x y => 4 * x * y) a _ has h22s
+  obtain ⟨disc, hdisc, hdiscs, _, hdiscg⟩ := zipBcast_same (fun x y => x * x - y) b ac hbs hacs
+  obtain ⟨num1, hnum1, hnum1s, _, hnum1g⟩ := zipBcast_same (fun x d => -x + r d) b disc hbs hdiscs
+  obtain ⟨mu1, hmu1, hmu1s, _, hmu1g⟩ := zipBcast_same (fun p x => p / (2 * x)) num1 a hnum1s has
+  obtain ⟨num2, hnum2, hnum2s, _, hnum2g⟩ := zipBcast_same (fun x d => -x - r d) b disc hbs hdiscs
+  obtain ⟨mu2, hmu2, hmu2s, _, hmu2g⟩ := zipBcast_same (fun p x => p / (2 * x)) num2 a hnum2s has
+  have he0s := shape_selectRow e he 0
+  have he1s := shape_selectRow e he 1
+  obtain ⟨p10, hp10, hp10s, _, hp10g⟩ := zipBcast_lastcol (fun x m => m * x) (e.selectAxis o.length 0) mu1 he0s hmu1s
+  obtain ⟨p11, hp11, hp11s, _, hp11g⟩ := zipBcast_lastcol (fun x m => (1 - m) * x) (e.selectAxis o.length 1) mu1 he1s hmu1s
+  obtain ⟨n1, hn1, hn1s, _, hn1g⟩ := zipBcast_same (· + ·) p10 p11 hp10s hp11s
+  obtain ⟨p20, hp20, hp20s, _, hp20g⟩ := zipBcast_lastcol (fun x m => m * x) (e.selectAxis o.length 0) mu2 he0s hmu2s
+  obtain ⟨p21, hp21, hp21s, _, hp21g⟩ := zipBcast_lastcol (fun x m => (1 - m) * x) (e.selectAxis o.length 1) mu2 he1s hmu2s
+  obtain ⟨n2, hn2, hn2s, _, hn2g⟩ := zipBcast_same (· + ·) p20 p21 hp20s hp21s
+  obtain ⟨c, hc, hcs, hcg⟩ := stackRows2_spec n1 n2 hn1s hn2s
+  have hol : e.rank - 2 = o.length := by rw [hrank]; rfl
+  simp only [hol] at hpr
+  refine ⟨c, ?_, hcs, ?_⟩
+  · unfold segmentAuxND
+    simp only [hlast, hol, bind, Except.bind, hm1, hpr, ht, ha, hb, hac, hdisc, hnum1, hmu1, hnum2, hmu2,
+      hp10, hp11, hn1, hp20, hp21, hn2, hc]
+  · intro i hi
+    -- the scalars of unit i
+    set X := matAt e 2 n i with hX
+    have g11 := h11g i hi
+    have g22 := h22g i hi
+    have g12 := h12g i hi
+    simp only [matAt] at g11 g22 g12
+    have hG := hgram i hi
+    have va : a.get i = (segQuad (minkJ n) X).1 := by
+      rw [hag i hi, htg i hi, g11, g22, g12, hG 0 0 (by omega) (by omega), hG 1 1 (by omega) (by omega),
+        hG 0 1 (by omega) (by omega)]; rfl
+    have vb : b.get i = (segQuad (minkJ n) X).2.1 := by
+      rw [hbg i hi, g22, g12, hG 1 1 (by omega) (by omega), hG 0 1 (by omega) (by omega)]; rfl
+    have vc : ((pr.selectLast 1).selectLast 1).get i = (segQuad (minkJ n) X).2.2 := by
+      rw [g22, hG 1 1 (by omega) (by omega)]; rfl
+    have vdisc : disc.get i = (segQuad (minkJ n) X).2.1 * (segQuad (minkJ n) X).2.1 -
+        4 * (segQuad (minkJ n) X).1 * (segQuad (minkJ n) X).2.2 := by
+      rw [hdiscg i hi, hacg i hi, vb, va, vc]
+    have vmu1 : mu1.get i = (-(segQuad (minkJ n) X).2.1 + r (disc.get i)) / (2 * (segQuad (minkJ n) X).1) := by
+      rw [hmu1g i hi, hnum1g i hi, vb, va]
+    have vmu2 : mu2.get i = (-(segQuad (minkJ n) X).2.1 - r (disc.get i)) / (2 * (segQuad (minkJ n) X).1) := by
+      rw [hmu2g i hi, hnum2g i hi, vb, va]
+    funext e' cc
+    have hrow0 : ∀ k (hk : k < n), (e.selectAxis o.length 0).get (i ++ [k]) = X 0 ⟨k, hk⟩ := by
+      intro k hk; rw [get_selectRow e he 0 hi hk]; rfl
+    have hrow1 : ∀ k (hk : k < n), (e.selectAxis o.length 1).get (i ++ [k]) = X 1 ⟨k, hk⟩ := by
+      intro k hk; rw [get_selectRow e he 1 hi hk]; rfl
+    simp only [matAt]
+    rw [hcg i e'.1 cc.1 hi e'.2 cc.2]
+    fin_cases e'
+    · simp only [Fin.zero_eta, Fin.val_zero, List.getD_cons_zero]
+      rw [hn1g _ (hi.append (by simpa using cc.2)), hp10g i cc.1 hi cc.2, hp11g i cc.1 hi cc.2,
+        hrow0 cc.1 cc.2, hrow1 cc.1 cc.2, vmu1, vdisc]
+      simp [segmentIdeal, segMix]
+    · simp only [Fin.mk_one, Fin.val_one, List.getD_cons_succ, List.getD_cons_zero]
+      rw [hn2g _ (hi.append (by simpa using cc.2)), hp20g i cc.1 hi cc.2, hp21g i cc.1 hi cc.2,
+        hrow0 cc.1 cc.2, hrow1 cc.1 cc.2, vmu2, vdisc]
+      simp [segmentIdeal, segMix]
 
 end GT.Act
